@@ -138,6 +138,8 @@ impl ToTokens for Expansion {
 
                 #[allow(deprecated)] // omit warnings on deprecated fields/variants
                 #[allow(non_upper_case_globals)]
+                // a discriminant written as `(1 << 3)` or `{ N }` isn't one where it is a constant's value
+                #[allow(unused_braces, unused_parens)]
                 #[inline]
                 fn try_from(val: #repr_ty) -> derive_more::core::result::Result<Self, #error> {
                     #( #bases )*
